@@ -7,10 +7,19 @@ on_miss [a, b] is the function key k -> value a*k+b; [a, b, ke, ve] is the same 
 KeyError for the keys in ke and ValueError for the keys in ve.
 Keys and values are small naturals in the case; the runner turns them into Python objects:
   km 's': key k -> 'k<k>';  km 'n': key k -> k / float(k) / bool(k) (== - and hash-equal aliases);
+  km 'x': key k -> an "exotic" hashable (None, (), '', a tuple, a frozenset, a negative int, a big int, bytes ...);
   value 0 -> None, value v -> v;  on_miss [a, b] is the function key k -> value a*k+b.
 Cache 0 is built by the constructor, every `copy` appends a cache.
+Optional fields: 'ik' = how the constructor's `values` are passed ('list' (default) | 'dict' | 'iter' | 'map');
+'omk': 'falsy' = on_miss is a callable object whose truth value is False (oracle only, known finding).
+Argument kinds of update / |=: 'dict' | 'list' | 'iter' | 'self' | 'map' (a mapping that is not a dict: keys() +
+__getitem__) | 'cache' (another cache of the world, op[3] = its number) | 'fail' (a generator that yields the pairs,
+then raises ValueError) | 'bad' (a list of the pairs followed by a malformed 1-tuple -> ValueError) | 'none'
+(update(**kw) without a positional argument: oracle only, known finding).  ==/!= operands: 'dict' | 'cache' |
+'other' (op[3] selects None / 5 / 'x' / a list of pairs / []).
 """
 import itertools
+import zlib
 
 from bv.common import Property, Failure, time_limit, exc_name, CaseTimeout
 
@@ -19,9 +28,16 @@ LOOKUPS = ('getitem', 'get', 'setdefault')
 
 # ----------------------------------------------------------------------------- encoding
 
+EXOTIC = [None, (), '', (3,), frozenset((4,)), -5, 2 ** 70 + 6, 'k7', 8.5, b'9', (10, 'a'), '\xe911', -12.25,
+          (None,), frozenset()]
+_XREV = {v: i for i, v in enumerate(EXOTIC)}
+
+
 def enc_key(km, k, salt=0):
     if km == 's':
         return 'k%d' % k
+    if km == 'x':
+        return EXOTIC[k] if k < len(EXOTIC) else ('t', k)
     variant = (salt + k) % 3
     if variant == 1:
         return float(k)
@@ -35,6 +51,11 @@ def dec_key(km, o):
         if km == 's':
             if isinstance(o, str) and o.startswith('k'):
                 return int(o[1:])
+        elif km == 'x':
+            if isinstance(o, tuple) and len(o) == 2 and o[0] == 't' and type(o[1]) is int and o[1] >= len(EXOTIC):
+                return o[1]
+            if o in _XREV and type(o) is type(EXOTIC[_XREV[o]]):
+                return _XREV[o]
         elif isinstance(o, (int, float, bool)) and int(o) == o:
             return int(o)
     except Exception:
@@ -70,6 +91,44 @@ def nats_txt(l):
     return ','.join(str(x) for x in l) or '-'
 
 
+class MapObj:
+    """a mapping that is not a dict: only keys() and __getitem__ (what dict.update needs of a mapping)"""
+
+    def __init__(self, pairs):
+        self._d = dict(pairs)
+
+    def keys(self):
+        return list(self._d)
+
+    def __getitem__(self, k):
+        return self._d[k]
+
+
+def fail_iter(pairs):
+    """yields the pairs, then raises ValueError"""
+    for p in pairs:
+        yield p
+    raise ValueError('iterable failed')
+
+
+class FalsyCallable:
+    """a callable whose truth value is False (it has a length of 0)"""
+
+    def __init__(self, f):
+        self.f = f
+
+    def __call__(self, key):
+        return self.f(key)
+
+    def __len__(self):
+        return 0
+
+
+PAIR_KINDS = ('dict', 'list', 'iter', 'map', 'fail', 'bad')      # update / |= arguments that carry pairs
+DEDUP_KINDS = ('dict', 'map')
+N_OTHERS = 5
+
+
 # ----------------------------------------------------------------------------- reference cache
 # Independent restatement of the property: a mapping plus, per key, the time of its latest
 # insertion-or-assignment (LRI) / insertion, assignment or successful lookup (LRU).  Inserting a
@@ -85,6 +144,11 @@ class Ref:
     def clone(self):
         r = Ref(self.lru, self.max, self.om)
         r.vals, r.stamp, r.clock = dict(self.vals), dict(self.stamp), self.clock
+        return r
+
+    def clone_full(self):
+        r = self.clone()
+        r.h, r.m, r.s, r.evictions = self.h, self.m, self.s, self.evictions
         return r
 
     def assign(self, k, v):
@@ -124,23 +188,33 @@ class C02(Property):
     PID = 'C02'
     QUICK_BUDGET_S = 38
     THOROUGH_BUDGET_S = 600
-    RULE = ('a case is one whole history of dict-API calls (item get/set/del, get, setdefault, update with '
-            'mapping/pairs/iterator/self/kwargs, |=, pop, popitem, clear, copy, in, len, iteration, ==/!= against '
-            'dicts and other caches) on an LRI or LRU with max_size 1-5 (8 in thorough), on_miss None, k->a*k+b, or that function raising KeyError / ValueError for chosen keys, '
-            'optionally constructor values, over max_size+1..+3 keys (strings, or the aliases 1/1.0/True), ended by a '
-            'probe that inserts max_size fresh keys into every cache so that the eviction order becomes visible; '
-            'every cache of the world is dumped (items/keys/values/iter/len/in/counters/max_size/on_miss) after every '
-            'call. Exhaustive: all histories of <=2 calls over a 38-call alphabet on 3 keys x max_size 1-3 x both '
-            'classes x on_miss none / total / raising; 14k (thorough 60k) sampled 3-5-call histories on pre-filled caches; '
-            'adversarial scripts (reassign-oldest, lookup-oldest, |=/update overflow with duplicates, copy after '
-            'reordering then diverge, remove-then-refill, == with equal-length dicts, self-update, copy of a copy); '
-            'random histories of 4-40 (thorough up to 300) calls. Non-trivial = at least one eviction happened in '
-            'the reference cache; distinct = distinct whole case.')
+    RULE = ('a case is one whole history of dict-API calls (item get/set/del, get, setdefault, update and |= with a '
+            'dict / list of pairs / one-shot iterator / mapping object that is not a dict / the cache itself / ANOTHER cache '
+            'of the world / an iterable that raises after some pairs / a list with a malformed element, update keyword '
+            'arguments, pop, popitem, clear, copy, in, len, iteration, ==/!= against dicts, other caches and non-mappings '
+            '(None, 5, a string, a list)) on an LRI or LRU with max_size 1-5 (8 in thorough; 33-200 in the big family), '
+            'on_miss None, k->a*k+b (also returning None), or that function raising KeyError / ValueError for chosen keys, '
+            'constructor values passed as list / dict / iterator / mapping object, over max_size+1..+3 keys (strings, the '
+            'aliases 1/1.0/True, or exotic hashables: None, (), \'\', tuples, frozensets, negative and huge ints, bytes), '
+            'ended by a probe that inserts max_size (+1 in the scripted, adversarial and half of the random cases) fresh keys '
+            'into every cache so that the eviction order, and any link left behind in the ring, becomes visible; every cache of '
+            'the world is dumped (items/keys/values/iter/len/in/counters/max_size/on_miss) after every call. Order: (0) 3114 '
+            'scripted scenarios (falsy on_miss results, stored None, removal of a None-valued newest/oldest key then overflow, '
+            'lookups on a not-yet-full LRU, update/|= with exactly the current contents after a reorder, equal contents in a '
+            'different dict order, every argument kind overflowing with duplicates, one cache read into another then both '
+            'diverging, keyword arguments overlapping E; plus two oracle-only known-finding families), 14 (thorough 60) big-'
+            'capacity cases with bulk updates of 34-400 pairs, 300 adversarial scripts; (1) exhaustive: all histories of <=2 '
+            'calls over a 43-call alphabet on 3 keys x max_size 1-3 x both classes x on_miss none / total / raising; (2) 14k '
+            '(thorough 60k) sampled 3-5-call histories on pre-filled caches; (3) 1500 (6000) adversarial scripts of 13 kinds; '
+            '(4) 8000 (120000) random histories of 4-40 (thorough up to 300) calls. 3 cases of 4 run on the pointer-level Lean '
+            'model of the linked list (C02.hwstep), the others on the ring model (C02.wstep). Non-trivial = at least one '
+            'eviction happened in the reference cache; distinct = distinct whole case.')
     ASSUMPTIONS = ['keys are hashable with == consistent with hash; values are compared with ==',
                    'on_miss is a function of the key that does not touch the cache; it may return, raise KeyError or raise another exception (ValueError in the generators)',
                    'max_size is an int >= 1 and is not reassigned after construction',
-                   'one thread (C03 covers concurrency); update() is not given another LRI/LRU as its argument']
-    CORRESPONDENCE_NAME = 'C02.Driver (LRI/LRU model, C02.wstep) vs boltons.cacheutils.LRI/LRU'
+                   'one thread (C03 covers concurrency)',
+                   'a failing update(): the statement does not say what remains; the oracle accepts "the pairs received before the exception are assigned" (dict.update, and the model) or "none of them"; update(other_cache): the oracle accepts the source either untouched or looked up once per item (the model: looked up)']
+    CORRESPONDENCE_NAME = 'C02.Driver (LRI/LRU pointer-level model C02.hwstep and ring model C02.wstep) vs boltons.cacheutils.LRI/LRU'
 
     # ------------------------------------------------------------------ generation
     def small_alphabet(self, mx, with_copy):
@@ -153,32 +227,41 @@ class C02(Property):
                 ['popitem', 0], ['clear', 0], ['update', 0, 'dict', [[0, 4], [1, 5], [2, 6]], []],
                 ['update', 0, 'list', [[2, 4], [0, 5], [2, 6]], []], ['ior', 0, 'dict', [[1, 9], [2, 9]]],
                 ['ior', 0, 'self', []], ['eq', 0, 'dict', [[0, 1], [1, 2]]], ['copy', 0]]
+        # round 2: a failing iterable, a non-mapping operand of ==, a mapping object + overlapping keyword arguments
+        ops += [['update', 0, 'fail', [[1, 4], [0, 5]], []], ['eq', 0, 'other', 0],
+                ['update', 0, 'map', [[1, 3]], [[1, 7], [0, 8]]]]
         if with_copy:
             ops += [['set', 1, 2, 9], ['getitem', 1, 0], ['eq', 0, 'cache', 1], ['popitem', 1]]
+            ops += [['ior', 0, 'cache', 1], ['update', 1, 'cache', 0, [[2, 2]]]]
         return ops
 
-    def probe(self, case):
-        """append fresh inserts into every cache so that the eviction order becomes visible"""
+    def probe(self, case, extra=0, limit=None):
+        """append fresh inserts into every cache so that the eviction order becomes visible (max_size of them
+        evict everything that was there, in order; one more also evicts through a link that was left behind
+        in the ring by a removal)"""
         n_caches = 1 + sum(1 for op in case['ops'] if op[0] == 'copy')
         nk = case['nk']
         ops = list(case['ops'])
+        n = case['max'] + extra if limit is None else min(limit, case['max'] + extra)
         for i in range(n_caches):
-            for j in range(case['max']):
+            for j in range(n):
                 ops.append(['set', i, nk + j, 50 + j])
-        return dict(case, ops=ops, nk=nk + case['max'])
+        return dict(case, ops=ops, nk=nk + n)
 
     def normalize(self, case):
         """drop ops that refer to caches that do not exist (after shrinking removed a copy)"""
         n = 1
         ops = []
         for op in case['ops']:
-            idx = [op[1]] + ([op[3]] if op[0] in ('eq', 'ne') and op[2] == 'cache' else [])
+            idx = [op[1]] + ([op[3]] if op[0] in ('eq', 'ne', 'update', 'ior') and op[2] == 'cache' else [])
             if any(i >= n for i in idx):
                 continue
             if op[0] == 'copy':
                 if n >= 4:
                     continue
                 n += 1
+            if op[0] == 'update' and op[4] and case['km'] != 's':
+                op = op[:4] + [[]]      # keyword arguments exist for string keys only
             ops.append(op)
         return dict(case, ops=ops)
 
@@ -190,6 +273,13 @@ class C02(Property):
 
     def cases(self, budget_s):
         rng = self.rng
+        # (0) small scripted scenarios (unusual-but-legal inputs, multi-step interplay, several caches), big sizes
+        for c in self.scripted():
+            yield c
+        for c in self.big_cases(rng, 60 if self.thorough else 14):
+            yield c
+        for c in self.adversarial(rng, 300):
+            yield c
         # (1) exhaustive: every history of <= 2 calls, every config
         for cls, mx, om in self.configs((1, 2, 3)):
             alpha = self.small_alphabet(mx, True)
@@ -217,6 +307,10 @@ class C02(Property):
 
     def deep_cases(self, budget_s):
         rng = self.rng
+        for c in self.scripted():
+            yield c
+        for c in self.big_cases(rng, 40):
+            yield c
         for cls, mx, om in self.configs((1, 2, 3)):
             alpha = self.small_alphabet(mx, True)
             base = {'cls': cls, 'max': mx, 'om': om, 'km': 's', 'nk': 3, 'init': None}
@@ -237,7 +331,7 @@ class C02(Property):
         cls = rng.choice(('LRI', 'LRU'))
         mx = rng.choice((1, 2, 3, 4, 5)) if not big else rng.choice((3, 5, 8))
         nk = mx + rng.choice((1, 2, 3))
-        km = rng.choice('ssn')
+        km = rng.choice('ssnx')
         om = rng.choice((None, None, [rng.randint(0, 3), rng.randint(0, 3)], 'raise'))
         if om == 'raise':
             ke = [k for k in range(nk + mx) if rng.random() < 0.3]
@@ -271,12 +365,16 @@ class C02(Property):
             elif r < 0.70:
                 ops.append(['clear', i])
             elif r < 0.78:
-                kind = rng.choice(('dict', 'list', 'iter', 'self'))
+                kind = rng.choice(('dict', 'list', 'iter', 'self', 'map', 'cache', 'dict', 'list', 'iter', 'fail', 'bad'))
                 kw = self.rand_pairs(rng, nk, True, 0, 2) if km == 's' and rng.random() < 0.4 else []
-                ops.append(['update', i, kind, [] if kind == 'self' else self.rand_pairs(rng, nk, kind == 'dict', 0, mx + 2), kw])
+                arg = [] if kind == 'self' else rng.randrange(n) if kind == 'cache' else \
+                    self.rand_pairs(rng, nk, kind in DEDUP_KINDS, 0, mx + 2)
+                ops.append(['update', i, kind, arg, kw])
             elif r < 0.84:
-                kind = rng.choice(('dict', 'list', 'iter', 'self'))
-                ops.append(['ior', i, kind, [] if kind == 'self' else self.rand_pairs(rng, nk, kind == 'dict', 0, mx + 2)])
+                kind = rng.choice(('dict', 'list', 'iter', 'self', 'map', 'cache', 'dict', 'list', 'iter', 'fail', 'bad'))
+                arg = [] if kind == 'self' else rng.randrange(n) if kind == 'cache' else \
+                    self.rand_pairs(rng, nk, kind in DEDUP_KINDS, 0, mx + 2)
+                ops.append(['ior', i, kind, arg])
             elif r < 0.88:
                 if n < 3:
                     ops.append(['copy', i])
@@ -289,13 +387,18 @@ class C02(Property):
                     ops[-1].append(key())
             else:
                 name = rng.choice(('eq', 'eq', 'ne'))
-                if rng.random() < 0.4:
+                z = rng.random()
+                if z < 0.4:
                     ops.append([name, i, 'cache', rng.randrange(n)])
+                elif z < 0.5:
+                    ops.append([name, i, 'other', rng.randrange(N_OTHERS)])
                 else:
                     ops.append([name, i, 'dict', None])   # filled in below with (a variation of) the current contents
         case = {'cls': cls, 'max': mx, 'om': om, 'km': km, 'nk': nk, 'init': init, 'ops': ops}
+        if init is not None and rng.random() < 0.5:
+            case['ik'] = rng.choice(('dict', 'iter', 'map'))
         self.fill_eq(case, rng)
-        return self.probe(case)
+        return self.probe(case, extra=rng.choice((0, 1)))
 
     def fill_eq(self, case, rng):
         """replace the placeholder operand of ==/!= by the reference contents at that point, sometimes perturbed
@@ -314,7 +417,7 @@ class C02(Property):
             rng.shuffle(order)
             fill = order[:mx]
             ops = [['set', 0, k, 1 + k] for k in fill]
-            kind = rng.randrange(9)
+            kind = rng.randrange(13)
             victim = rng.choice(fill)
             fresh = order[mx]
             if kind == 0:      # re-assign an old key, then overflow
@@ -347,13 +450,183 @@ class C02(Property):
             elif kind == 7:    # setdefault / get on absent keys when full
                 ops += [['setdefault', 0, fresh, 4], ['get', 0, order[mx + 1], 5], ['setdefault', 0, fresh],
                         ['get', 0, victim], ['pop', 0, order[mx + 2], 1]]
-            else:              # copy of a copy, popitem order
+            elif kind == 8:    # copy of a copy, popitem order
                 ops += [['getitem', 0, victim], ['copy', 0], ['copy', 1], ['popitem', 2], ['set', 2, fresh, 1],
                         ['set', 2, order[mx + 1], 1], ['eq', 2, 'cache', 0]]
+            elif kind == 9:    # reorder, then update / |= with exactly the current contents (in the old order)
+                cur = [[k, 1 + k] for k in fill]
+                k2 = rng.choice(('dict', 'list', 'iter', 'map'))
+                ops += [rng.choice((['set', 0, victim, 1 + victim], [rng.choice(LOOKUPS), 0, victim])),
+                        [rng.choice(('ior', 'update')), 0, k2, cur]]
+                if ops[-1][0] == 'update':
+                    ops[-1].append([])
+            elif kind == 10:   # equal contents in a different dict order: == between caches, == with non-mappings
+                ops += [['copy', 0], [rng.choice(('pop', 'del')), 1, victim], ['set', 1, victim, 1 + victim],
+                        ['eq', 0, 'cache', 1], ['ne', 1, 'cache', 0], ['eq', 0, 'other', rng.randrange(N_OTHERS)],
+                        ['ne', 1, 'other', rng.randrange(N_OTHERS)], ['set', 1, victim, 9], ['eq', 1, 'cache', 0]]
+            elif kind == 11:   # one cache read into another (update / |=), then both diverge
+                ops += [rng.choice((['set', 0, victim, 9], [rng.choice(LOOKUPS), 0, victim])), ['copy', 0],
+                        rng.choice((['clear', 1], ['set', 1, fresh, 3], ['popitem', 1])),
+                        rng.choice((['ior', 1, 'cache', 0], ['update', 1, 'cache', 0, [[fresh, 4]] if km == 's' else []],
+                                    ['ior', 0, 'cache', 1], ['update', 0, 'cache', 0, []])),
+                        ['set', 0, order[mx + 1], 4], ['set', 1, order[mx + 2], 5], ['eq', 0, 'cache', 1]]
+            else:              # an update that fails half-way, a removed None value, then overflow
+                ps = [[k, rng.randint(0, 3)] for k in order[mx - 1:mx + 2]]
+                ops += [[rng.choice(('ior', 'update')), 0, rng.choice(('fail', 'bad')), ps], ['set', 0, victim, 0],
+                        rng.choice((['pop', 0, victim], ['pop', 0, victim, 4], ['del', 0, victim])), ['len', 0]]
+                if ops[mx][0] == 'update':
+                    ops[mx].append([])
             init = None
             if rng.random() < 0.3:
                 init, ops = [[op[2], op[3]] for op in ops[:mx]], ops[mx:]
-            yield self.probe(self.normalize({'cls': cls, 'max': mx, 'om': om, 'km': km, 'nk': nk, 'init': init, 'ops': ops}))
+            yield self.probe(self.normalize({'cls': cls, 'max': mx, 'om': om, 'km': km, 'nk': nk, 'init': init, 'ops': ops}),
+                             extra=1)
+
+    def scripted(self):
+        """small deterministic scenarios aimed at unusual-but-legal inputs and multi-step interplay"""
+        out = []
+
+        def add(cls, mx, om, km, nk, init, ops, **extra):
+            c = {'cls': cls, 'max': mx, 'om': om, 'km': km, 'nk': nk, 'init': init, 'ops': [list(o) for o in ops]}
+            c.update(extra)
+            out.append(self.probe(self.normalize(c), extra=1))
+
+        for cls in ('LRI', 'LRU'):
+            for mx in (1, 2, 3):
+                nk = mx + 3
+                fill = [['set', 0, k, 1 + k] for k in range(mx)]
+                cur = [[k, 1 + k] for k in range(mx)]
+                for km in ('s', 'n', 'x'):
+                    # on_miss whose result is None (falsy), alone and with raising keys
+                    for om in ([0, 0], [1, 0], [0, 0, [1], [2]]):
+                        for look in LOOKUPS:
+                            add(cls, mx, om, km, nk, None, [[look, 0, 0], [look, 0, 0], ['getitem', 0, 1], ['get', 0, 2, 5],
+                                                            ['setdefault', 0, 0, 3], ['in', 0, 0], ['len', 0]])
+                    # a stored None is a value like any other
+                    for look in (['get', 0, 0, 5], ['setdefault', 0, 0, 5], ['pop', 0, 0, 5], ['get', 0, 0], ['getitem', 0, 0]):
+                        add(cls, mx, None, km, nk, None, [['set', 0, 0, 0], look, ['in', 0, 0], ['get', 0, 0, 7]])
+                        add(cls, mx, None, km, nk, [[0, 0]], [look, ['set', 0, 1, 0], ['setdefault', 0, 1, 4]])
+                    # pop(k, d) where d is the very object stored under k (seeded C02-2): the key must be gone afterwards
+                    for val in (0, 5):
+                        add(cls, mx, None, km, nk, None, fill[1:] + [['set', 0, 0, val], ['pop', 0, 0, val], ['get', 0, 0, 7], ['in', 0, 0]])
+                        add(cls, mx, [2, 1], km, nk, [[0, val]], [['pop', 0, 0, val], ['pop', 0, 0, val], ['getitem', 0, 0]])
+                    # a key whose value is None removed in every way (as newest / as oldest key), then overflow
+                    for rm in (['pop', 0, 0], ['pop', 0, 0, 5], ['del', 0, 0], ['popitem', 0]):
+                        add(cls, mx, None, km, nk, None, fill[1:] + [['set', 0, 0, 0], rm])
+                        add(cls, mx, None, km, nk, None, [['setdefault', 0, 0]] + fill[1:] + [rm, ['set', 0, 0, 2]])
+                    # lookups while the cache is not full yet must count for the later eviction order (LRU)
+                    for look in LOOKUPS + ('in',):
+                        add(cls, mx, None, km, nk, None, fill[:-1] + [[look, 0, 0]])
+                        add(cls, mx, [2, 1], km, nk, cur[:-1], [[look, 0, 0], ['set', 0, mx, 9], [look, 0, 0]])
+                    # reorder, then update / |= with exactly the current contents in the old order: every key is re-assigned
+                    for reorder in (['set', 0, 0, 1], ['getitem', 0, 0], ['get', 0, 0], ['setdefault', 0, 0, 9]):
+                        for kind in ('dict', 'list', 'iter', 'map'):
+                            add(cls, mx, None, km, nk, None, fill + [reorder, ['ior', 0, kind, cur]])
+                            add(cls, mx, None, km, nk, cur, [reorder, ['update', 0, kind, list(reversed(cur)), []]])
+                    # equal contents, different dict order; operands of == that are not mappings
+                    add(cls, mx, None, km, nk, None, fill + [['copy', 0], ['pop', 1, 0], ['set', 1, 0, 1], ['eq', 0, 'cache', 1],
+                                                             ['ne', 0, 'cache', 1], ['eq', 1, 'cache', 0], ['eq', 0, 'dict', list(reversed(cur))]]
+                        + [[n, 0, 'other', j] for j in range(N_OTHERS) for n in ('eq', 'ne')])
+                    add(cls, mx, None, km, nk, None, [['eq', 0, 'other', 4], ['ne', 0, 'other', 0], ['eq', 0, 'dict', []], ['ne', 0, 'dict', []]])
+                    # constructor values passed as list / dict / one-shot iterator / mapping object (with duplicates, empty)
+                    for ik in ('list', 'dict', 'iter', 'map'):
+                        for init in ([[0, 1], [1, 2], [0, 3], [2, 4]], [], [[1, 0]], [[k, 2] for k in range(mx + 2)]):
+                            add(cls, mx, None, km, nk, init, [['getitem', 0, 0], ['len', 0], ['copy', 0]], ik=ik)
+                    # update / |= with every kind of argument, overflowing, with duplicates
+                    for kind in ('dict', 'list', 'iter', 'map', 'fail', 'bad'):
+                        ps = [[0, 1], [1, 2], [2, 3], [0, 4], [3, 5]]
+                        add(cls, mx, None, km, nk, None, [['update', 0, kind, ps, []], ['len', 0], ['getitem', 0, 0]])
+                        add(cls, mx, None, km, nk, None, fill + [['ior', 0, kind, ps[2:]], ['ior', 0, kind, []], ['getitem', 0, 3]])
+                        add(cls, mx, [1, 1], km, nk, None, [['getitem', 0, 1], ['ior', 0, kind, ps[:mx]], ['update', 0, kind, ps[1:], []]])
+                    # one cache read into another
+                    for reorder in (['set', 0, 0, 9], ['getitem', 0, 0], ['len', 0]):
+                        for prep in (['clear', 1], ['set', 1, mx, 3], ['popitem', 1], ['len', 1]):
+                            for upd in (['ior', 1, 'cache', 0], ['update', 1, 'cache', 0, []], ['ior', 0, 'cache', 1],
+                                        ['update', 0, 'cache', 0, []], ['ior', 1, 'cache', 1]):
+                                add(cls, mx, None, km, nk, None, fill + [reorder, ['copy', 0], prep, upd, ['set', 0, mx + 1, 4],
+                                                                         ['eq', 0, 'cache', 1]])
+                    add(cls, mx, [2, 1], km, nk, None, fill + [['copy', 0], ['copy', 1], ['del', 1, 0], ['ior', 2, 'cache', 1],
+                                                               ['ior', 1, 'cache', 2], ['update', 0, 'cache', 2, []], ['getitem', 1, 0]])
+                # keyword arguments of update: after E, overlapping E (string keys only)
+                for kind in ('dict', 'list', 'iter', 'map', 'self'):
+                    arg = [] if kind == 'self' else [[0, 7], [mx, 8]]
+                    add(cls, mx, None, 's', nk, None, fill + [['update', 0, kind, arg, [[mx, 9], [0, 6], [mx + 1, 5]]], ['getitem', 0, 0]])
+                    add(cls, mx, None, 's', nk, None, [['update', 0, kind, [] if kind == 'self' else [[1, 1]], [[1, 2], [0, 3]]], ['getitem', 0, 1]])
+                add(cls, mx, None, 's', nk, None, fill + [['copy', 0], ['update', 1, 'cache', 0, [[0, 6], [mx, 5]]], ['getitem', 1, 0]])
+                # --- oracle only (known findings): update(**kw) without a positional argument; a falsy callable as on_miss
+                add(cls, mx, None, 's', nk, None, fill[:1] + [['update', 0, 'none', [], [[0, 5], [1, 2]]], ['getitem', 0, 0]])
+                for look in LOOKUPS:
+                    add(cls, mx, [2, 1], 's', nk, None, [[look, 0, 0], [look, 0, 0], ['len', 0]], omk='falsy')
+        return out
+
+    def big_cases(self, rng, n):
+        """capacities around and above DEFAULT_MAX_SIZE, bulk updates of tens to hundreds of pairs"""
+        for _ in range(n):
+            cls = rng.choice(('LRI', 'LRU'))
+            mx = rng.choice((33, 64, 127, 128, 129, 200))
+            nk = mx + 60
+            om = rng.choice((None, None, [1, 1]))
+            ops = []
+            n_c = 1
+            for _step in range(rng.randint(3, 7)):
+                i = rng.randrange(n_c)
+                z = rng.random()
+                if z < 0.55:
+                    kind = rng.choice(('dict', 'list', 'iter', 'map', 'list'))
+                    cnt = rng.choice((34, 40, mx - 1, mx, mx + 1, mx + 30, 2 * mx + 7))
+                    lo = rng.randrange(nk)
+                    ps = [[(lo + j * rng.choice((1, 1, 1, 3))) % nk, rng.randint(0, 9)] for j in range(cnt)]
+                    if kind in ('list', 'iter') and rng.random() < 0.5:
+                        ps += [list(rng.choice(ps)) for _ in range(5)]
+                    ps = dedup(ps) if kind in DEDUP_KINDS else ps
+                    ops.append([rng.choice(('update', 'ior')), i, kind, ps])
+                    if ops[-1][0] == 'update':
+                        ops[-1].append([[k, 1] for k in range(3)] if rng.random() < 0.3 else [])
+                elif z < 0.75:
+                    ops += [[rng.choice(LOOKUPS), i, rng.randrange(nk)] for _ in range(rng.randint(1, 20))]
+                elif z < 0.85 and n_c < 3:
+                    ops.append(['copy', i])
+                    n_c += 1
+                elif z < 0.92 and n_c > 1:
+                    ops.append([rng.choice(('ior', 'update')), i, 'cache', rng.randrange(n_c)])
+                    if ops[-1][0] == 'update':
+                        ops[-1].append([])
+                else:
+                    ops += [[rng.choice(('del', 'pop')), i, rng.randrange(nk)] for _ in range(rng.randint(1, 10))]
+            init = None
+            if rng.random() < 0.4:
+                init = [[k, 1 + k % 9] for k in range(rng.choice((mx - 2, mx, mx + 5)))]
+            case = {'cls': cls, 'max': mx, 'om': om, 'km': 's', 'nk': nk, 'init': init, 'ops': ops}
+            if init is not None:
+                case['ik'] = rng.choice(('list', 'dict', 'iter', 'map'))
+            yield self.probe(self.normalize(case), limit=8)
+
+    # ------------------------------------------------------------------ known findings (oracle-only regions)
+    def _passes(self, case):
+        self._quiet = True
+        try:
+            return self.ref_run(case, self.impl(case)) is None
+        finally:
+            self._quiet = False
+
+    def finding_falsy_on_miss(self, case, failure):
+        """the failing case uses a callable on_miss whose truth value is False, and the same history with an
+        ordinary function computing the same values passes"""
+        if case.get('omk') != 'falsy':
+            return False
+        return self._passes({k: v for k, v in case.items() if k != 'omk'})
+
+    def finding_update_requires_positional(self, case, failure):
+        """the failing call is update(**kw) without a positional argument raising TypeError, and the same history
+        with update({}, **kw) in its place passes"""
+        si = getattr(failure, 'si', None)
+        if si is None or si >= len(case['ops']):
+            return False
+        op = case['ops'][si]
+        if not (op[0] == 'update' and op[2] == 'none' and failure.tag == 'raises' and 'TypeError' in failure.what):
+            return False
+        ops = [(o[:2] + ['dict'] + o[3:]) if o[0] == 'update' and o[2] == 'none' else o for o in case['ops']]
+        return self._passes(dict(case, ops=ops))
 
     # ------------------------------------------------------------------ model line
     @staticmethod
@@ -365,9 +638,14 @@ class C02(Property):
         return '%d,%d/%s/%s' % (om[0], om[1], '.'.join(map(str, om[2])) or '-', '.'.join(map(str, om[3])) or '-')
 
     def line(self, case):
+        if case.get('omk'):
+            return None            # a falsy callable as on_miss: the code ignores it (known finding), outside the model
+        init = case['init'] or []
+        if (case.get('ik') or 'list') in DEDUP_KINDS:
+            init = dedup(init)
         toks = ['1' if case['cls'] == 'LRU' else '0', str(case['max']),
                 self.om_txt(case['om']), str(case['nk']),
-                pairs_txt(case['init'] or [])]
+                pairs_txt(init)]
         for op in case['ops']:
             name, i = op[0], op[1]
             a = op[2:]
@@ -383,10 +661,16 @@ class C02(Property):
                 toks.append('D:%d:%d:%d' % (i, a[0], a[1] if len(a) > 1 else 0))
             elif name in ('update', 'ior'):
                 kind, ps = a[0], a[1]
+                if kind == 'none':
+                    return None    # update(**kw) without a positional argument raises TypeError (known finding)
                 if kind == 'self':
                     arg = 'S'
+                elif kind == 'cache':
+                    arg = 'C:%d' % ps
+                elif kind in ('fail', 'bad'):
+                    arg = 'F:' + pairs_txt(ps)
                 else:
-                    arg = 'P:' + pairs_txt(dedup(ps) if kind == 'dict' else ps)
+                    arg = 'P:' + pairs_txt(dedup(ps) if kind in DEDUP_KINDS else ps)
                 if name == 'update':
                     toks.append('u:%d:%s:%s' % (i, arg, pairs_txt(dedup(a[2]))))
                 else:
@@ -409,10 +693,16 @@ class C02(Property):
                 t = 'e' if name == 'eq' else 'n'
                 if a[0] == 'cache':
                     toks.append('%s:%d:C:%d' % (t, i, a[1]))
+                elif a[0] == 'other':
+                    toks.append('%s:%d:O' % (t, i))
                 else:
                     toks.append('%s:%d:P:%s' % (t, i, pairs_txt(dedup(a[1]))))
             else:
                 return None
+        # three cases out of four are run on the pointer-level model of the linked list (cls 2 / 3: C02.hwstep),
+        # the others on the ring model (cls 0 / 1: C02.wstep); the two are proved equivalent and print the same text
+        if zlib.crc32(' '.join(toks).encode()) % 4:
+            toks[0] = '3' if case['cls'] == 'LRU' else '2'
         return ' '.join(toks)
 
     # ------------------------------------------------------------------ implementation
@@ -433,6 +723,8 @@ class C02(Property):
                 if k in ve:
                     raise ValueError(key)
                 return enc_val(a * k + b) if isinstance(k, int) else None
+            if case.get('omk') == 'falsy':
+                om = FalsyCallable(om)
         recs = []
         world = []
         nk = case['nk']
@@ -478,10 +770,21 @@ class C02(Property):
                 kind = a[0]
                 if kind == 'self':
                     arg = c
+                elif kind == 'cache':
+                    arg = world[a[1]]
                 elif kind == 'dict':
                     arg = dict(mk_pairs(dedup(a[1]), si))
+                elif kind == 'map':
+                    arg = MapObj(mk_pairs(dedup(a[1]), si))
                 elif kind == 'list':
                     arg = mk_pairs(a[1], si)
+                elif kind == 'fail':
+                    arg = fail_iter(mk_pairs(a[1], si))
+                elif kind == 'bad':
+                    arg = mk_pairs(a[1], si) + [(ek(0, si),)]
+                elif kind == 'none':
+                    r = c.update(**{ek(k, 0): enc_val(v) for k, v in dedup(a[2])})
+                    return ['none'] if r is None else ['other', repr(r)[:40]]
                 else:
                     arg = iter(mk_pairs(a[1], si))
                 if name == 'update':
@@ -512,7 +815,12 @@ class C02(Property):
             if name == 'iter':
                 return ['items', [[dec_key(km, k), dec_val(v)] for k, v in c.items()]]
             if name in ('eq', 'ne'):
-                other = world[a[1]] if a[0] == 'cache' else dict(mk_pairs(dedup(a[1]), si))
+                if a[0] == 'cache':
+                    other = world[a[1]]
+                elif a[0] == 'other':
+                    other = [None, 5, 'x', [(ek(0, si), 1)], []][a[1] % N_OTHERS]
+                else:
+                    other = dict(mk_pairs(dedup(a[1]), si))
                 r = (c == other) if name == 'eq' else (c != other)
                 return ['bool', r] if isinstance(r, bool) else ['other', repr(r)[:40]]
             raise ValueError('unknown op %r' % (op,))
@@ -525,7 +833,11 @@ class C02(Property):
                     if case['init'] is None:
                         world.append(cls(max_size=case['max'], on_miss=om))
                     else:
-                        world.append(cls(max_size=case['max'], values=mk_pairs(case['init'], 1), on_miss=om))
+                        ik = case.get('ik') or 'list'
+                        vals = mk_pairs(dedup(case['init']) if ik in DEDUP_KINDS else case['init'], 1)
+                        vals = {'list': lambda: vals, 'dict': lambda: dict(vals), 'iter': lambda: iter(vals),
+                                'map': lambda: MapObj(vals)}[ik]()
+                        world.append(cls(max_size=case['max'], values=vals, on_miss=om))
                     rec['ret'] = ['none']
                 except CaseTimeout:
                     raise
@@ -597,58 +909,67 @@ class C02(Property):
         lru = case['cls'] == 'LRU'
         refs = [Ref(lru, case['max'], case['om'])]
         judge = obs is not None
+        ctx = {'si': None}
+
+        def F(tag, what):
+            f = Failure(tag, what)
+            f.si = ctx['si']
+            return f
 
         def check_dumps(rec, what):
             dumps = rec['dumps']
             if len(dumps) != len(refs):
-                return Failure('copy', '%s: %d caches dumped, %d expected' % (what, len(dumps), len(refs)))
+                return F('copy', '%s: %d caches dumped, %d expected' % (what, len(dumps), len(refs)))
             for ci, (d, r) in enumerate(zip(dumps, refs)):
                 if 'exc' in d:
-                    return Failure('raises', '%s: reading cache %d raised %s' % (what, ci, d['exc']))
+                    return F('raises', '%s: reading cache %d raised %s' % (what, ci, d['exc']))
                 items = d['items']
                 got = {}
                 for k, v in items:
                     if k in got:
-                        return Failure('views', '%s: duplicate key %r in items of cache %d' % (what, k, ci))
+                        return F('views', '%s: duplicate key %r in items of cache %d' % (what, k, ci))
                     got[k] = v
                 if d['len'] > r.max or len(items) > r.max:
-                    return Failure('size', '%s: cache %d holds %d items, max_size %d' % (what, ci, max(d['len'], len(items)), r.max))
+                    return F('size', '%s: cache %d holds %d items, max_size %d' % (what, ci, max(d['len'], len(items)), r.max))
                 if got != r.vals:
-                    return Failure('contents', '%s: cache %d holds %r, reference cache holds %r' % (what, ci, got, r.vals))
+                    return F('contents', '%s: cache %d holds %r, reference cache holds %r' % (what, ci, got, r.vals))
                 if d['len'] != len(items) or d['keys'] != [k for k, _ in items] or d['values'] != [v for _, v in items] \
                         or d['iter'] != d['keys'] or d['has'] != [1 if k in got else 0 for k in range(case['nk'])]:
-                    return Failure('views', '%s: len/keys/values/iter/in of cache %d disagree with items(): %r' % (what, ci, d))
+                    return F('views', '%s: len/keys/values/iter/in of cache %d disagree with items(): %r' % (what, ci, d))
                 if (d['h'], d['m'], d['s']) != (r.h, r.m, r.s):
-                    return Failure('counters', '%s: cache %d (hit, miss, soft_miss) = %r, lookups counted by the reference: %r'
+                    return F('counters', '%s: cache %d (hit, miss, soft_miss) = %r, lookups counted by the reference: %r'
                                    % (what, ci, (d['h'], d['m'], d['s']), (r.h, r.m, r.s)))
                 if d['s'] > d['m']:
-                    return Failure('counters', '%s: soft_miss_count %d > miss_count %d' % (what, d['s'], d['m']))
+                    return F('counters', '%s: soft_miss_count %d > miss_count %d' % (what, d['s'], d['m']))
                 if d['max'] != r.max:
-                    return Failure('copy', '%s: cache %d has max_size %r, expected %r' % (what, ci, d['max'], r.max))
+                    return F('copy', '%s: cache %d has max_size %r, expected %r' % (what, ci, d['max'], r.max))
             return None
 
         if judge:
             if not obs or 'dumps' not in obs[0]:
-                return Failure('raises', 'no observation')
+                return F('raises', 'no observation')
             if 'exc' in obs[0]:
-                return Failure('raises', 'constructor raised %s' % obs[0]['exc'])
+                return F('raises', 'constructor raised %s' % obs[0]['exc'])
         if case['init']:
-            for k, v in case['init']:
+            # a mapping holds one value per key (the last one given), at the position of the key's first occurrence
+            for k, v in (dedup(case['init']) if (case.get('ik') or 'list') in DEDUP_KINDS else case['init']):
                 refs[0].assign(k, v)
         if judge:
             f = check_dumps(obs[0], 'after construction')
             if f:
                 return f
             if obs[0]['calls']:
-                return Failure('on_miss', 'on_miss called by the constructor')
+                return F('on_miss', 'on_miss called by the constructor')
         for si, op in enumerate(case['ops']):
             name, i, a = op[0], op[1], op[2:]
             r = refs[i]
+            ctx['si'] = si
             what = 'op %d %r' % (si, op)
             exp_exc = None
             exp_ret = ['none']
             exp_calls = []
             any_item = False
+            alts = []          # [(cache number, alternative reference state)]: readings the statement leaves open
             if name == 'set':
                 r.assign(a[0], a[1])
             elif name in LOOKUPS:
@@ -687,12 +1008,37 @@ class C02(Property):
                 r.vals.clear()
                 r.stamp.clear()
             elif name in ('update', 'ior'):
-                if a[0] != 'self':
-                    for k, v in (dedup(a[1]) if a[0] == 'dict' else a[1]):
-                        r.assign(k, v)
-                    if name == 'update':
-                        for k, v in dedup(a[2]):
+                kind = a[0]
+                kw = dedup(a[2]) if name == 'update' else []
+                if kind == 'self':
+                    pass                       # updating a cache with itself changes nothing
+                elif kind == 'cache':
+                    src = refs[a[1]]
+                    if src is not r:
+                        # the items of the source, in its iteration order, are assigned to the target.  Reading them
+                        # through src[k] is one found lookup per item on the source (hit; LRU refresh) - the
+                        # statement also admits a reading that leaves the source untouched (alternative)
+                        alts.append((a[1], src.clone_full()))
+                        for k, v in list(src.vals.items()):
+                            src.lookup(k)
                             r.assign(k, v)
+                        for k, v in kw:
+                            r.assign(k, v)
+                elif kind in ('fail', 'bad'):
+                    # the iterable raises ValueError after the pairs: the exception propagates; like dict.update
+                    # the pairs received before it have been assigned (alternative: none of them)
+                    exp_exc = 'ValueError'
+                    alts.append((i, r.clone_full()))
+                    for k, v in a[1]:
+                        r.assign(k, v)
+                elif kind == 'none':
+                    for k, v in kw:
+                        r.assign(k, v)
+                else:
+                    for k, v in (dedup(a[1]) if kind in DEDUP_KINDS else a[1]):
+                        r.assign(k, v)
+                    for k, v in kw:
+                        r.assign(k, v)
             elif name == 'copy':
                 exp_ret = ['copy']
             elif name == 'in':
@@ -704,6 +1050,8 @@ class C02(Property):
             elif name in ('eq', 'ne'):
                 if a[0] == 'cache':
                     same = r.vals == refs[a[1]].vals
+                elif a[0] == 'other':
+                    same = False               # not a mapping: never equal
                 else:
                     if a[1] is None:
                         if not upto_placeholders:
@@ -731,28 +1079,28 @@ class C02(Property):
                 continue
             # ---- judge this step
             if si + 1 >= len(obs):
-                return Failure('raises', '%s: no observation (%s)' % (what, obs[-1].get('exc')))
+                return F('raises', '%s: no observation (%s)' % (what, obs[-1].get('exc')))
             rec = obs[si + 1]
             if 'exc' in rec:
                 if rec['exc'] != exp_exc:
-                    return Failure('raises', '%s raised %s (expected %s)' % (what, rec['exc'], exp_exc or 'no exception'))
+                    return F('raises', '%s raised %s (expected %s)' % (what, rec['exc'], exp_exc or 'no exception'))
             else:
                 if exp_exc:
-                    return Failure('return', '%s returned %r, expected %s: the key is not in the reference cache'
+                    return F('return', '%s returned %r, expected %s: the key is not in the reference cache'
                                    % (what, rec['ret'], exp_exc))
                 ret = rec['ret']
                 if any_item:
                     if ret[0] != 'item' or r.vals.get(ret[1], object()) != ret[2]:
-                        return Failure('return', '%s returned %r, not an item of the reference cache %r' % (what, ret, r.vals))
+                        return F('return', '%s returned %r, not an item of the reference cache %r' % (what, ret, r.vals))
                     r.remove(ret[1])
                 elif name == 'iter':
                     if ret[0] != 'items' or sorted(map(tuple, ret[1])) != sorted(r.vals.items()):
-                        return Failure('return', '%s yielded %r, reference cache holds %r' % (what, ret, r.vals))
+                        return F('return', '%s yielded %r, reference cache holds %r' % (what, ret, r.vals))
                 elif ret != exp_ret:
                     tag = 'eq' if name in ('eq', 'ne') else 'return'
-                    return Failure(tag, '%s returned %r, expected %r' % (what, ret, exp_ret))
+                    return F(tag, '%s returned %r, expected %r' % (what, ret, exp_ret))
             if rec['calls'] != exp_calls:
-                return Failure('on_miss', '%s: on_miss called with %r, expected %r (called exactly for lookups of absent keys)'
+                return F('on_miss', '%s: on_miss called with %r, expected %r (called exactly for lookups of absent keys)'
                                % (what, rec['calls'], exp_calls))
             if name == 'copy' and 'exc' not in rec:
                 n = r.clone()
@@ -766,11 +1114,22 @@ class C02(Property):
                     if cnt == (r.h, r.m, r.s):
                         n.h, n.m, n.s = cnt
                     elif cnt != (0, 0, 0):
-                        return Failure('copy', '%s: counters of the copy are %r' % (what, cnt))
+                        return F('copy', '%s: counters of the copy are %r' % (what, cnt))
                 refs.append(n)
             f = check_dumps(rec, what)
+            if f and alts:
+                saved = [(ci, refs[ci]) for ci, _ in alts]
+                for ci, alt in alts:
+                    refs[ci] = alt
+                if check_dumps(rec, what) is None:
+                    f = None
+                else:
+                    for ci, old in saved:
+                        refs[ci] = old
             if f:
                 return f
+        if judge and getattr(self, '_quiet', False):
+            return None
         if judge:
             self._nt = any(r.evictions for r in refs)
             st = self.stats
@@ -799,6 +1158,16 @@ class C02(Property):
     # ------------------------------------------------------------------ shrinking
     def shrink(self, case):
         ops = case['ops']
+        # big cases first: a smaller capacity, then halves / quarters of long pair lists
+        if case['max'] > 8:
+            for m in (2, 3, 5, 8, 16, 33, 64):
+                if m < case['max']:
+                    yield dict(case, max=m)
+        for i, op in enumerate(ops):
+            if op[0] in ('update', 'ior') and op[2] in PAIR_KINDS and len(op[3]) >= 8:
+                n = len(op[3])
+                for lo, hi in ((0, n // 2), (n // 2, n), (n // 4, n), (0, 3 * n // 4)):
+                    yield dict(case, ops=ops[:i] + [op[:3] + [op[3][lo:hi]] + op[4:]] + ops[i + 1:])
         # drop a suffix / one op
         for i in range(len(ops)):
             c = self.normalize(dict(case, ops=ops[:i] + ops[i + 1:]))
@@ -806,16 +1175,22 @@ class C02(Property):
                 yield c
         if case['init']:
             yield dict(case, init=None)
+            n = len(case['init'])
+            if n >= 8:
+                yield dict(case, init=case['init'][:n // 2])
+                yield dict(case, init=case['init'][n // 2:])
             for j in range(len(case['init'])):
                 yield dict(case, init=case['init'][:j] + case['init'][j + 1:])
         for i, op in enumerate(ops):
-            if op[0] in ('update', 'ior') and op[2] != 'self':
+            if op[0] in ('update', 'ior') and op[2] in PAIR_KINDS:
                 for j in range(len(op[3])):
                     yield dict(case, ops=ops[:i] + [op[:3] + [op[3][:j] + op[3][j + 1:]] + op[4:]] + ops[i + 1:])
                 if op[0] == 'update' and op[4]:
                     yield dict(case, ops=ops[:i] + [op[:4] + [[]]] + ops[i + 1:])
-        if case['km'] == 'n':
+        if case['km'] != 's':
             yield dict(case, km='s')
+        if case.get('ik'):
+            yield {k: v for k, v in case.items() if k != 'ik'}
         if case['om'] is not None:
             yield dict(case, om=None)
             if len(case['om']) > 2:
